@@ -48,6 +48,8 @@ pub struct Local {
     pub verdicts: Vec<String>,
     /// keep the K smallest violations per signature instead of the K first (order-independent: BFS)
     pub keep_smallest: bool,
+    /// name of the sub-check this accumulator belongs to (set by the engines)
+    pub sub: String,
 }
 
 pub const KEEP_PER_SIG: u64 = 3;
@@ -60,6 +62,9 @@ impl Local {
     /// The property held on this trace. `calls` = number of real API calls judged.
     #[inline]
     pub fn ok(&mut self, calls: u64, nontrivial: bool, outcome: u64) {
+        if self.noncanonical_seen() {
+            return;
+        }
         self.evals += 1;
         self.transitions += calls;
         if nontrivial {
@@ -75,6 +80,9 @@ impl Local {
     /// The statement is silent on this trace.
     #[inline]
     pub fn dc(&mut self, calls: u64) {
+        if self.noncanonical_seen() {
+            return;
+        }
         self.evals += 1;
         self.transitions += calls;
         self.dontcare += 1;
@@ -82,7 +90,21 @@ impl Local {
             self.verdicts.push("DONT-CARE (statement is silent on this trace)".into());
         }
     }
+    /// A trace that would be judged 'holds' or 'don't care' on the denoted counts, but during which the implementation
+    /// handed out a Duration whose nanosecond field is a century or more (oracle::dur::alpha noticed): the library's own
+    /// ==, ordering and to_parts() then disagree with the value, so no statement about 'exactly' or 'equal' holds.
+    fn noncanonical_seen(&mut self) -> bool {
+        match crate::oracle::dur::take_noncanon() {
+            Some(p) => {
+                let check = if self.sub.is_empty() { "canonical".to_string() } else { self.sub.clone() };
+                self.viol(&check, "noncanonical-duration-returned".into(), vec!["rerun".into()], "every Duration handed out has nanoseconds < one century (MAX excepted)".into(), format!("(centuries, nanoseconds) = {p:?}"));
+                true
+            }
+            None => false,
+        }
+    }
     pub fn viol(&mut self, check: &str, sig: String, args: Vec<String>, expected: String, observed: String) {
+        let _ = crate::oracle::dur::take_noncanon();
         self.evals += 1;
         self.transitions += 1;
         let full = format!("{check}/{sig}");
